@@ -1,5 +1,6 @@
 """Shared by props/c05.py and props/c06.py: correspondence cases between the GENERATED integrand model (coq/Gen/PMIntegrand.v)
 and the Rust values dumped by the harness (harness/src/c06.rs: dump_params / dump_values)."""
+import json
 import os
 import re
 
@@ -219,3 +220,95 @@ def singles_correspondence(ctx, binp, n=1, seed=None):
                           f"be evaluated) at case {cid}", {"kind": "model_mismatch", "what": "singles_integrand"},
                           {"setup": o["setup"], "p": o["p"], "rust_gl2": f64_of_hex(o["gl2"])}, found_input=False)
     return ok
+
+
+# ------------------------------------------------------------------------------------------------ --replay (C05, C06)
+NOT_AN_INPUT = ("proof", "model_mismatch", "too_few_inputs", "crash", "check_error", "internal", "default_integrator", "fiber_composition",
+                "exchange_tie", "grid_pairing", "division_widths", "counts_composition", "jsa_composition")
+
+
+def tag_inputs(ctx):
+    """every violation raised while ctx.current_input is set records how that input is regenerated: the harness arguments (the harness's
+    generator is a deterministic function of them) and the keys that single out the observation"""
+    orig = ctx.violation
+
+    def violation(stage, what, sig, detail=None, found_input=True):
+        cur = getattr(ctx, "current_input", None)
+        if cur is not None and isinstance(detail, dict) and "regenerate" not in detail:
+            detail = dict(detail, regenerate=cur)
+        return orig(stage, what, sig, detail, found_input)
+    ctx.violation = violation
+
+
+def tagged(args, obs):
+    """the harness arguments are attached to every observation"""
+    for o in obs:
+        o["_args"] = [str(a) for a in args]
+    return obs
+
+
+def input_key(o, keys):
+    return {"harness_args": o.get("_args"), "match": {k: o.get(k) for k in keys}}
+
+
+def replay(ctx, binp, oracle, timeout=2400):
+    """./check <ID> --replay <file>: regenerate exactly the recorded input (same harness arguments, the observation with the recorded keys),
+    evaluate the property's clauses on it alone, and report whether the recorded clause still fails.
+    exit 1 + a VIOLATION line if it does, 0 if it does not; a replay file that cannot be used is a check error (CheckError)"""
+    import hashlib
+    from vlib import common
+    path = ctx.replay if os.path.isabs(ctx.replay) else os.path.join(common.VERIF, ctx.replay)
+    if not os.path.exists(path) and os.path.exists(ctx.replay):
+        path = ctx.replay
+    try:
+        rec = json.load(open(path))
+    except (OSError, ValueError) as e:
+        raise common.CheckError(f"replay file {ctx.replay} cannot be read as JSON: {e}")
+    if not isinstance(rec, dict) or not isinstance(rec.get("signature"), dict):
+        raise common.CheckError(f"replay file {ctx.replay} is not a violation record (no 'signature')")
+    if rec.get("property") != ctx.prop:
+        raise common.CheckError(f"replay file {ctx.replay} belongs to property {rec.get('property')}, not {ctx.prop}")
+    sig = rec["signature"]
+    det = rec.get("detail") if isinstance(rec.get("detail"), dict) else {}
+    regen = det.get("regenerate")
+    ctx.log("REPLAY recorded violation:", rec.get("what"))
+    if sig.get("kind") in NOT_AN_INPUT or not isinstance(regen, dict):
+        if sig.get("kind") in NOT_AN_INPUT or "regenerate" not in det and not det.get("setup"):
+            ctx.log(f"REPLAY: this record (kind {sig.get('kind')}) names a proof obligation / correspondence case / run-level condition, not an "
+                    f"input; re-run ./check {ctx.prop}")
+            return 0
+        raise common.CheckError(f"replay file {ctx.replay} does not say how its input is regenerated (written by an older version of the "
+                                f"check: re-run ./check {ctx.prop} with VERIF_SEED={rec.get('seed')} --tier {rec.get('tier')})")
+    args, match = regen.get("harness_args"), regen.get("match")
+    if not (isinstance(args, list) and args and isinstance(match, dict) and match):
+        raise common.CheckError(f"replay file {ctx.replay}: malformed 'regenerate' entry")
+    obs = common.run_harness(ctx, binp, args, timeout=timeout)
+    sel = [o for o in obs if all(o.get(k) == v for k, v in match.items())]
+    bad = [o for o in obs if o.get("kind") in ("harness_crash", "harness_timeout")]
+    if not sel:
+        if bad:
+            ctx.log("REPLAY: the harness did not survive regenerating the input:", json.dumps(bad[0])[:400])
+            sel = bad
+        else:
+            raise common.CheckError(f"replay file {ctx.replay}: harness {' '.join(args)} no longer generates the recorded input "
+                                    "(the generator changed since the record was written)")
+    ctx.log(f"REPLAY input regenerated: {len(sel)} observation(s) of kind {sorted({o.get('kind') for o in sel})}")
+    ctx.violations = []
+    oracle(ctx, tagged(args, sel))
+    keys = [k for k in ("kind", "quantity", "integrator", "against") if k in sig]
+    same = [v for v in ctx.violations if all(str(v["sig"].get(k)) == str(sig[k]) for k in keys)]
+    other = [v for v in ctx.violations if v not in same]
+    for v in other[:5]:
+        ctx.log("REPLAY: the input also fails another clause:", v["what"][:200])
+    if not same:
+        ctx.log("REPLAY verdict: does NOT reproduce on this tree")
+        return 0
+    v = same[0]
+    f = common.match_finding(v, common.load_findings(), ctx.prop)
+    if f:
+        print(f"KNOWN-FINDING: property={ctx.prop} {f['what']}", flush=True)
+        ctx.log("REPLAY verdict: reproduces on this tree (a recorded known finding)")
+        return 0
+    ctx.log("REPLAY verdict: reproduces on this tree")
+    print(f"VIOLATION property={ctx.prop} replay={ctx.replay} # {v['what'][:300]}", flush=True)
+    return 1
